@@ -14,7 +14,7 @@ import (
 	rt "github.com/uber-go/tally/v4/verifrt"
 )
 
-var c13TagSets = []map[string]string{nil, {}, {"a": "b"}, {"a": "b=c"}, {"a=b": "c"}, {"a": "b", "c": "d"}}
+var c13TagSets = []map[string]string{nil, {}, {"a": "b"}, {"a": "b=c"}, {"a=b": "c"}, {"a": "b", "c": "d"}, {"x=y": ""}, {"x": "y="}}
 
 func wantKey(name string, mtype int, count int64, gauge float64, timer int64, tags map[string]string, extra ...string) string {
 	ts := make([]string, 0, len(tags)+len(extra))
